@@ -338,7 +338,9 @@ pub fn run_c04(tier: Tier) -> i32 {
     }
     rep.sections.insert("sessions".into(), json!({"total": n_cases, "with_padding_frames": with_padding, "lines": ls.len()}));
     giant_sizes(&mut rep, thorough);
-    rep.finish("IX: every scheme line of <=2 (thorough 3) entries over 16 entry forms x stop in {0,1,2,3,9} x draw policy x 10 payload sizes per packet (+ the real first batch, + 'only line 2', + over-long chunks, + server role, + every line of 3..4 (thorough 5) entries over the reduced alphabet {c, 7, 8, 30, 100-400}); each session's recorded wire is parsed by the reference parser; non-trivial = distinct case in which padding frames were actually emitted")
+    // one execution at a time: a push replaces the PROCESS-wide default scheme, which the session then adopts
+    crate::dxrun::run_items_workers(&mut rep, "C04", tier, c04_items(tier), DxOpts { time_cap: Duration::from_secs(if thorough { 600 } else { 40 }), det_replays: 2, max_violations: 3, vacuity_check: false }, 1);
+    rep.finish("IX: every scheme line of <=2 (thorough 3) entries over 16 entry forms x stop in {0,1,2,3,9} x draw policy x 10 payload sizes per packet (+ the real first batch, + 'only line 2', + over-long chunks, + server role, + every line of 3..4 (thorough 5) entries over the reduced alphabet {c, 7, 8, 30, 100-400}); each session's recorded wire is parsed by the reference parser; DX (<= 2 (3) deviations, short / pending writes): a scheme pushed by the peer handled while another task's padded multi-write packet is in progress, for 4 pushed schemes; non-trivial = distinct case in which padding frames were actually emitted")
 }
 
 /// sizes >= 2^31 can abort the process on allocation: each case runs in a child process under RLIMIT_AS.
@@ -546,6 +548,73 @@ pub fn make_c05_dx(n_writers: usize, scheme: &'static str) -> ScenarioFn {
         out.obs = format!("{:?}", r.batches.iter().map(|b| b.0.clone()).collect::<Vec<_>>());
         out
     })
+}
+
+/// every packet line has four entries: payload split, payload + padding, padding-only records
+pub const OLD4: &str = "stop=9\n1=7-7,8-8,30-30,9-9\n2=7-7,8-8,30-30,9-9\n3=7-7,8-8,30-30,9-9\n4=7-7,8-8,30-30,9-9\n5=7-7,8-8,30-30,9-9\n6=7-7,8-8,30-30,9-9\n7=7-7,8-8,30-30,9-9\n8=7-7,8-8,30-30,9-9";
+
+/// DX: a scheme pushed by the peer is handled by the receive loop while another task's padded multi-write packet is in
+/// progress (writes may be short or pending). The wire must stay well-formed and carry exactly the submitted frames.
+pub fn make_c04_push_dx(new_scheme: &'static str) -> ScenarioFn {
+    scenario(move || async move {
+        let mut out = Outcome::default();
+        let link = peer_link(PipeCfg::new("in"), PipeCfg::new("out").menus(false, true));
+        let wire = link.peer.out.clone();
+        let sess = Arc::new(Session::new_client(link.sess_r, link.sess_w, padding(OLD4), None));
+        let s2 = sess.clone();
+        tokio::spawn(async move {
+            let _ = s2.recv_loop().await;
+        });
+        let inj = link.peer.inj.clone();
+        tokio::spawn(link.peer.sink());
+        let s3 = sess.clone();
+        let writer = tokio::spawn(async move {
+            hpoint("h.c04.writer").await;
+            let mut oks = vec![];
+            for k in 0..3u8 {
+                oks.push(matches!(within(s3.write_data_frame(1, Bytes::from(vec![0x40 + k; 40]))).await, Some(Ok(()))));
+            }
+            oks
+        });
+        let pusher = tokio::spawn(async move {
+            hpoint("h.c04.push").await;
+            inj.push(&enc(UPDATE_PADDING, 0, new_scheme.as_bytes()));
+        });
+        let oks = writer.await.unwrap_or_default();
+        let _ = pusher.await;
+        crate::ctl::settle().await;
+        tokio::time::sleep(Duration::from_millis(50)).await;
+        let bytes = wire.written();
+        let (frames, left) = parse_all(&bytes);
+        let real: Vec<RFrame> = frames.iter().filter(|f| f.cmd != WASTE).cloned().collect();
+        out.obs = format!("oks={:?} wire=[{}] left={left}", oks, fmt_frames(&real));
+        if oks != vec![true, true, true] {
+            out.viol("C04:sender-failed", format!("writes on a healthy transport returned {:?} while a scheme push was being handled", oks));
+        }
+        if left != 0 {
+            out.viol("C04:wire-not-whole-frames", format!("{left} trailing bytes that are not a complete frame while a scheme push was handled in mid-packet; frames: {}", fmt_frames(&frames)));
+        }
+        let want: Vec<RFrame> = (0..3u8).map(|k| RFrame::new(PSH, 1, &vec![0x40 + k; 40])).collect();
+        if left == 0 && real != want {
+            out.viol(if real.len() < want.len() { "C04:payload-dropped-or-truncated" } else { "C04:payload-altered" }, format!("after deleting padding frames the wire has [{}], submitted [{}]", fmt_frames(&real), fmt_frames(&want)));
+        }
+        if frames.iter().any(|f| f.cmd == WASTE && f.data.iter().any(|b| *b != 0)) {
+            out.viol("C04:payload-altered", "a padding frame carries non-zero bytes (payload spliced into padding)".to_string());
+        }
+        out
+    })
+}
+
+pub fn c04_items(tier: Tier) -> Vec<DxItem> {
+    let mut v = vec![];
+    for (name, new) in [("one entry per line", "stop=9\n1=100-100\n2=100-100\n3=100-100\n4=100-100\n5=100-100\n6=100-100\n7=100-100\n8=100-100"), ("no lines", "stop=9"), ("stop=1", "stop=1\n0=5-5"), ("longer lines", "stop=9\n1=7-7,7-7,7-7,7-7,7-7,c,9-9\n2=7-7,7-7,7-7,7-7,7-7,c,9-9\n3=7-7,7-7,7-7,7-7,7-7,c,9-9")] {
+        let mut it = DxItem::new(json!({"part": "push during a padded packet", "pushed": name}), make_c04_push_dx(new), if tier.is_thorough() { 3 } else { 2 });
+        it.exec.draw = DrawPolicy::Min;
+        it.exec.long_yield = 3;
+        it.exec.quiesce = true;
+        v.push(it);
+    }
+    v
 }
 
 pub const DX_SCHEME: &str = "stop=4\n1=20-20,50-50\n2=70-70\n3=100-100,c,31-31";
